@@ -83,8 +83,14 @@ def run(ctx, build, verdict, ev):
                     verdict.add_violation(f"{name}:z-monotone", f"{name}{p}: tsukamoto not monotone: z({y0!r})={z0}, z({y1!r})={z1}", {"term": name, "params": p, "y0": y0, "y1": y1, "z0": z0, "z1": z1}); nviol += 1
                     break
             yarr = np.array([y for y, _ in ys])
+            keepy = yarr.copy()
             with np.errstate(all="ignore"):
                 za = np.asarray(real.tsukamoto(yarr), dtype=float)
+            if not all(vlib.same_float(a, b) for a, b in zip(yarr, keepy)):
+                verdict.add_violation(f"{name}:argument-overwritten", f"{name}{p}.tsukamoto(array) modifies its argument in place (afterwards y = {list(yarr[:3])}…)", {"term": name, "params": p, "y": [float(v) for v in keepy[:4]]})
+                nviol += 1
+                yarr = keepy.copy()
+            with np.errstate(all="ignore"):
                 vlib.RECORDER.reset()
                 zca = np.asarray(clone.tsukamoto(yarr), dtype=float)
                 tbl = vlib.RECORDER.take()
